@@ -115,7 +115,7 @@ class World:
         if kind == 'est':
             x.established = True
         elif kind in ('dpub', 'dreq'):
-            x.dst.inbox.append(x.queue.pop(0))
+            x.dst.inbox.append([bytes(p) for p in x.queue.pop(0)])      # by-reference buffers are read now
             if x.draining and not x.queue:
                 x.dead = True
         elif kind == 'drop':
@@ -405,7 +405,13 @@ class Socket:
         w = self.world
         if self.closed or (w.cur is not None and w.cur.killed):
             return
-        parts = [bytes(p) for p in parts]
+        # pyzmq copies the parts at send time unless copy=False, in which case buffers of COPY_THRESHOLD (64 KiB) or more are
+        # handed to libzmq by reference and read by its I/O thread later: their bytes are fixed only when the message leaves
+        if copy is False:
+            parts = [p if (not isinstance(p, (bytes, str)) and memoryview(p).nbytes >= 65536) else bytes(p) for p in parts]
+            parts = [p if isinstance(p, bytes) else _LateBytes(p) for p in parts]
+        else:
+            parts = [bytes(p) for p in parts]
         if self.type == PUB:
             w.emit('pub', self.owner, self.addr, parts, getattr(w.cur, 'inc', 0), w.step_no)
             for l in self.out_links:
@@ -438,6 +444,22 @@ class Socket:
         if not self.inbox:
             raise Again()
         return self.inbox.pop(0)
+
+
+class _LateBytes:
+    """a message part sent with copy=False: a reference to the caller's buffer, read when the message is delivered"""
+
+    def __init__(self, buf):
+        self.buf = buf
+
+    def __bytes__(self):
+        return bytes(memoryview(self.buf))
+
+    def startswith(self, x):
+        return bytes(self).startswith(x)
+
+    def decode(self, *a):
+        return bytes(self).decode(*a)
 
 
 class _Nowhere:
